@@ -49,6 +49,18 @@ def lemmas():
         for n in ast.walk(fi.node):
             if isinstance(n, ast.Attribute) and n.attr in ('_defaults', '_sections', 'defaults'): direct.append((q, n.lineno))
     out.append(B.static_obligation('C15/_config_parser.py/no-site-bypasses-the-section-protocol', not direct, 'ConfigParser', F_CP, str(direct), hard=False))
+    # the parser-level views that merge [Variables] into a section (A5: RawConfigParser.items(section) = defaults + own options;
+    # _unify_values) are not overridden by _RawConfigParser: no site may read a section through them. dict.items() takes no argument, so a call
+    # .items(<argument>) is the parser's
+    merged = []
+    for rp in (F_CP, F_Q):
+        for q, fi in Module.get(rp).funcs.items():
+            if q.startswith('_RawConfigParser.') or q.startswith('_ConfigParserDict.'): continue
+            for n in ast.walk(fi.node):
+                if isinstance(n, ast.Call) and isinstance(n.func, ast.Attribute) and \
+                   ((n.func.attr == 'items' and (n.args or n.keywords)) or n.func.attr == '_unify_values'):
+                    merged.append((rp, q, n.lineno, ast.unparse(n)[:60]))
+    out.append(B.static_obligation('C15/config/no-site-reads-a-section-merged-with-the-variables', not merged, 'config package', F_CP, str(merged), hard=False))
     # specification-level lemma: own-key view of a section is independent of the variables
     K = z3.DeclareSort('OptKey'); own = z3.Const('own', z3.ArraySort(K, z3.BoolSort())); var1, var2 = z3.Consts('vars1 vars2', z3.ArraySort(K, z3.BoolSort())); k = z3.Const('k', K)
     visible = lambda own_, vars_: z3.Select(own_, k)                 # repaired parser: options(S) = own(S)
